@@ -34,6 +34,9 @@ def plan(tier, seed):
     return [{"mode": "pure", "hashseed": i % 8, "chains": 12000} for i in range(16)]
 
 
+SHADOWING_NAMES = ["power", "sign", "mod", "exp", "log", "square", "floor", "hypot", "np", "pi", "sin"]
+
+
 def new_table(rng):
     from xdeps import Table
     n = rng.choice([0, 1, 2, 3, 4, 5, 7])
@@ -49,6 +52,10 @@ def new_table(rng):
         data["o"] = o
     if rng.random() < 0.4:
         data["m"] = np.arange(2 * n, dtype=float).reshape(n, 2)
+    if rng.random() < 0.35:
+        # a column whose name is also the name of a helper available in column expressions (numpy functions, np):
+        # inside an expression the name denotes the COLUMN
+        data[rng.choice(SHADOWING_NAMES)] = np.array([rng.choice([0.5, 2.0, -1.5, 4.0]) for _ in range(n)], dtype=float)
     cols = list(data)
     if rng.random() < 0.7:
         data["energy"] = 7.0
@@ -288,11 +295,23 @@ def run_chain(rng, counters, violations):
             elif kind == "colexpr":
                 if "x" in real_cols and "i" in real_cols:
                     e = rng.choice(["x+2*i", "x*i-1", "i+i", "x/2", "abs(x)", "sqrt(x*x)+i"])
+                    sh = [c for c in real_cols if c in SHADOWING_NAMES and c != "abs"]
+                    local = {"x": src._data["x"], "i": src._data["i"]}
+                    if sh and rng.random() < 0.7:
+                        c = rng.choice(sh)
+                        e = rng.choice(["%s/2", "x+%s", "2*%s-i", "%s*%s"]).replace("%s", c)
+                        local[c] = src._data[c]
+                        counters["column_expressions_over_shadowing_names"] = counters.get("column_expressions_over_shadowing_names", 0) + 1
                     desc = "#%d[%r]" % (src_i, e)
                     x, i = src._data["x"], src._data["i"]
-                    want = eval(e, {"abs": np.abs, "sqrt": np.sqrt}, {"x": x, "i": i})
-                    got = src[e]
-                    sub = src.cols[e]
+                    want = eval(e, {"abs": np.abs, "sqrt": np.sqrt}, local)
+                    try:
+                        got = src[e]
+                        sub = src.cols[e]
+                    except Exception as exc:
+                        violations.append({"what": "C14 column expression %s raised %s: %s although numpy evaluates it on the columns" % (
+                            desc, type(exc).__name__, str(exc)[:120]), "log": list(log)})
+                        return derived_ok
                     counters["column_expressions_compared"] = counters.get("column_expressions_compared", 0) + 1
                     if not (np.shape(got) == np.shape(want) and np.array_equal(got, want, equal_nan=True)):
                         violations.append({"what": "C14 column expression %s: %s, numpy gives %s" % (desc, got, want), "log": list(log)})
